@@ -22,6 +22,13 @@ type c03Scen struct {
 	Preempt  int       `json:"preempt_permille"`
 	NoTrim   bool      `json:"trim_right_slash_off,omitempty"`
 	Traffic  []int     `json:"traffic_during_registration,omitempty"` // probe indices served by another task meanwhile; answers not judged
+	// Burst: the long-lived server that keeps registering routes. The registrar of service BurstSvc-1
+	// answers, before its BurstAt-th Route call, every probe once and then BurstN requests to as many
+	// different URLs (of its own service, or of all when BurstAll). Not judged; see World.Burst.
+	BurstSvc int  `json:"burst_by_registrar,omitempty"`
+	BurstAt  int  `json:"burst_before_route_call,omitempty"`
+	BurstN   int  `json:"burst_requests,omitempty"`
+	BurstAll bool `json:"burst_over_all_services,omitempty"`
 }
 
 var c03RootsCurly = []string{"/a", "/{t}", "/a/b", "/a/{t}", "/b", "/", "/ab", "/{t}/b", "/a/{t}/{u}", "/{t}/{u}/c/d", "/{t}/b/{u}", "/a/b/{t}"}
@@ -176,6 +183,13 @@ func genC03(x *Ctx) *c03Scen {
 		np := len(c03Probes(sc))
 		tp.Repeat(2, 10, 800, func(int) { sc.Traffic = append(sc.Traffic, tp.G(np)) })
 	}
+	if tp.Chance(15) {
+		i := tp.G(len(sc.Svcs))
+		sc.BurstSvc = i + 1
+		sc.BurstAt = tp.G(len(sc.Svcs[i].Routes))
+		sc.BurstN = []int{40, 140, 300, 560}[tp.G(4)]
+		sc.BurstAll = tp.Chance(300)
+	}
 	return sc
 }
 
@@ -278,6 +292,12 @@ func runC03(x *Ctx) {
 		empty.Routes[sp.ID] = []int{}
 	}
 	w.Start(empty)
+	if sc.BurstSvc > 0 {
+		w.BurstProbes = c03Probes(sc)
+		s.MaxSteps += 14 * (sc.BurstN + len(w.BurstProbes))
+		x.Count("reach:burst-of-distinct-urls")
+		x.CountN("burst-requests", sc.BurstN)
+	}
 	// one registrar per service: its Route calls in a permuted order, its Add somewhere among them
 	for i, sp := range sc.Svcs {
 		i, sp := i, sp
@@ -285,6 +305,14 @@ func runC03(x *Ctx) {
 			for k, ri := range sc.RouteOrd[i] {
 				if k == sc.AddPos[i] {
 					w.Do(AdminOp{Kind: "add", Svc: sp.ID})
+					t.Y(sim.SiteAdminPost)
+				}
+				if i == sc.BurstSvc-1 && k == sc.BurstAt {
+					focus := sp.ID + 1
+					if sc.BurstAll {
+						focus = 0
+					}
+					w.Do(AdminOp{Kind: "burst", N: sc.BurstN, Focus: focus})
 					t.Y(sim.SiteAdminPost)
 				}
 				w.Do(AdminOp{Kind: "route", Svc: sp.ID, Route: sp.Routes[ri].ID})
